@@ -15,6 +15,18 @@ pub fn drive_c06(args: &[String]) {
         // numbering and pairwise non-isomorphism of everything emitted, only the completeness half is dropped
         let (d, m) = r.split_once(':').unwrap();
         let full = !m.ends_with('u');
+        // "3:10v": validity only (a complete, connected D-set with commuting non-adjacent operations within the bound),
+        // every output judged on its own in chunks that are validated in parallel
+        if m.ends_with('v') {
+            let (dim, max): (usize, usize) = (d.parse().unwrap(), m.trim_end_matches('v').parse().unwrap());
+            let hdr = json!({"ev": "dset_valid", "dim": dim, "max": max});
+            pending(&hdr);
+            match catch(|| DSets::new(dim, max).map(|s| dset_json(&s)).collect::<Vec<_>>()) {
+                Ok(list) => { for (k, j) in list.into_iter().enumerate() { sink.emit(json!({"ev": "dset_valid", "grp": format!("d{dim}m{max}v{}", k / 2500), "dim": dim, "max": max, "set": j})); } }
+                Err(msg) => { sink.emit(json!({"ev": "dset_valid", "grp": format!("d{dim}m{max}v0"), "panic": msg})); }
+            }
+            continue;
+        }
         let (dim, max): (usize, usize) = (d.parse().unwrap(), m.trim_end_matches('u').parse().unwrap());
         let grp = format!("d{dim}m{max}{}", if full { "" } else { "u" });
         let hdr = json!({"ev": "dset_header", "grp": grp, "dim": dim, "max": max, "full": full});
